@@ -77,6 +77,16 @@ def validate_all(module, cfg, results, ev, pid, keep=(), xmx="3g", timeout=1500,
                     r.violation, at, lines[at - 1][:500] if 0 < at <= len(lines) else "")
             import re as _re2
             mm = _re2.findall(r'<<"MISMATCH", "([^"]*)"', r.out)
+            mw = _re2.search(r'<<\s*"WANT",\s*<<([0-9,\s]*)>>', r.out)
+            if mw and line and line > 0:
+                want = bytes(int(x) for x in mw.group(1).split(",") if x.strip())
+                open(os.path.join(d, "want.txt"), "wb").write(want)
+                try:
+                    import json as _j
+                    got = bytes(_j.loads(open(tr).read().splitlines()[line - 1])["out"])
+                    open(os.path.join(d, "got.txt"), "wb").write(got)
+                except Exception:
+                    pass
             if mm:
                 ctx = "[observation that differed: %s] " % ", ".join(sorted(set(mm))) + ctx
             open(os.path.join(d, "why.txt"), "w").write(ctx + "\n")
